@@ -455,6 +455,9 @@ func (f Field) GetType() string {
 	case *FixedStringFieldAttribute, *DynamicStringFieldAttribute:
 		return "string"
 	case *ObjectFieldAttribute:
+		if c.RefPacket == nil {
+			return c.PacketName
+		}
 		return c.RefPacket.Name
 	case *MatchFieldAttribute:
 		return "match"
